@@ -568,6 +568,11 @@ def main():
             if a.no_replay:
                 violations.append((h, new_fails[0], None, "replay skipped"))
                 continue
+            if any(v[2] for v in violations) and not os.environ.get("VERIF_REPLAY_ALL"):
+                # one natively confirmed counterexample is enough to report the property as violated;
+                # further failing harnesses are listed without spending another replay on each
+                log("  also failing (not replayed, a confirmed violation already exists): %s: %s" % (h["name"], new_fails[0]["desc"]))
+                continue
             tests = gen_playback(prop, h, repo, scratch, idx, caps)
             hfile = os.path.basename(harness_file_of(prop, h))
             confirmed = None
